@@ -170,7 +170,10 @@ def after_scan(ex, idx, op, obs, C, raw, pre_cache, pre_class):
     # ---- equals the from-scratch report (C09 / C10 / C06) --------------------
     F = None
     if wl in ("C09", "C10", "C06") or pending:
-        fobs, F, fmarkers = ex.fresh_reference(nonce)
+        # every other reference scan sees the directory listings in exactly the order the scan
+        # under test saw them; the lists inside the report must then agree in order as well
+        same_walk = wl == "C09" and not pending and not ex.fresh_memo_on and O.digest(nonce)[-1] in "01234567"
+        fobs, F, fmarkers = ex.fresh_reference(nonce, same_walk_as=nonce if same_walk else None)
         if fobs["outcome"] != "ok" or F is None:
             ex.probe("inconclusive_reference_failed")
             F = None
@@ -183,6 +186,13 @@ def after_scan(ex, idx, op, obs, C, raw, pre_cache, pre_class):
                         "C06": "rescan_equal"}[tag]
                 ex.add(violation(tag, name, "; ".join(O.diff_reports(nC, nF)), idx, pending=pending,
                                  pre_cache_class=pre_class))
+            elif same_walk:
+                oc, of = O.ordered_view(C), O.ordered_view(F)
+                if oc != of:
+                    ex.add(violation("C09", "cached_equals_fresh_in_listing_order",
+                                     "same directory listing order for both scans, yet the reports list things in different order: %s"
+                                     % "; ".join(O.diff_reports(oc, of)), idx))
+                ex.probe("c09_order_compared")
     # ---- C10: complete cache, and the healed cache does not taint -----------
     if pending:
         missing = [m for m in MARKERS if not os.path.exists(os.path.join(w.cache_dir, m))]
